@@ -13,6 +13,7 @@ import EdzedProofs.Init
 import EdzedProofs.InitOrder
 import EdzedProofs.InitAsyncOrder
 import EdzedProofs.InitClosure
+import EdzedProofs.InitTie
 
 namespace Edzed.Init
 
@@ -183,6 +184,58 @@ theorem completed_steps_called_regular (c : Cfg) (b : Nat) (h : (run c).steps b 
 example : ∃ c, proj 0 (run c).log = [.P, .R, .D] :=
   ⟨{ n := 1, blk := fun _ => { persist := .raises, initdef := some (Val.int 1, .viaEvent), dests := [0] },
      fuel := 16 }, by decide⟩
+
+/-! ### InitAsync: the initdef is used iff the coroutine did not deliver -- whatever the initdef's truth value
+
+`Regular.quietNone` is `InitAsync.init_regular`; the block is uninitialised at step 2 iff `init_async` has not
+set the output (failed, timed out, cancelled).  The three theorems describe step 2 of `init_sblock` completely. -/
+
+/-- not delivered, an initdef was given (ANY value `v`: 0, False, '' and None included): the output None is NOT
+    set, `init_from_value(initdef)` is called -/
+theorem initasync_initdef_used_if_not_delivered (c : Cfg) (rec : Call → St → St) (b : Nat) (s : St) (v : Val)
+    (how : How) (hq : (c.blk b).regular = .quietNone) (hd : (c.blk b).initdef = some (v, how))
+    (hok : s.ok = true) (hu : (s.out b).isUndef = true) :
+    step2 c rec b s =
+      (if !(rec (applyCall how b v) (((s.setSteps b (-2)).push (.regular b)).push (.initdef b true))).ok
+       then rec (applyCall how b v) (((s.setSteps b (-2)).push (.regular b)).push (.initdef b true))
+       else (rec (applyCall how b v)
+         (((s.setSteps b (-2)).push (.regular b)).push (.initdef b true))).setSteps b 2) :=
+  step2_initasync_uses_initdef c rec b s v how hq hd hok hu
+
+/-- delivered: neither None nor the initdef is applied -/
+theorem initasync_initdef_unused_if_delivered (c : Cfg) (rec : Call → St → St) (b : Nat) (s : St)
+    (hq : (c.blk b).regular = .quietNone) (hok : s.ok = true) (hu : (s.out b).isUndef = false) :
+    step2 c rec b s = ((s.setSteps b (-2)).push (.regular b)).setSteps b 2 :=
+  step2_initasync_initialised c rec b s hq hok hu
+
+/-- the output None without output events is set only when NO initdef was given -/
+theorem initasync_none_only_without_initdef (c : Cfg) (rec : Call → St → St) (b : Nat) (s : St)
+    (hq : (c.blk b).regular = .quietNone) (hd : (c.blk b).initdef = Option.none)
+    (hok : s.ok = true) (hu : (s.out b).isUndef = true) :
+    step2 c rec b s = (((s.setSteps b (-2)).push (.regular b)).setOut b Val.none).setSteps b 2 :=
+  step2_initasync_no_initdef c rec b s hq hd hok hu
+
+/-- a failing coroutine, the falsy default 0 and a destination that only the event can initialise:
+    the default is used and forwarded, start-up succeeds -/
+example : ∃ c, (run c).failed = false ∧ (run c).out 0 = Val.int 0 ∧ (run c).out 1 = Val.int 0 ∧
+    Entry.initdef 0 true ∈ (run c).log :=
+  ⟨{ n := 2, blk := fun i => if i = 0 then { async := .fails 5, timeout := 10, regular := .quietNone,
+                                             initdef := some (Val.int 0, .direct), dests := [1] } else {},
+     fuel := 32 }, by decide, by decide, by decide, by decide⟩
+
+namespace TrTie
+
+/-- the model's `quietNone` IS the translated `InitAsync.init_regular` (guard and action list taken from the
+    current source by tools/py2lean_init.py): a changed guard -- e.g. the truth value of the initdef instead
+    of `is not UNDEF` -- changes the generated definition and this theorem stops compiling -/
+theorem translated_initasync_regular_is_model (c : Cfg) (rec : Call → St → St) (b : Nat) (a : St)
+    (hq : (c.blk b).regular = .quietNone)
+    (hv : ∀ v h, (c.blk b).initdef = some (v, h) → v.isUndef = false) :
+    regularBody c rec b a =
+      applyActs rec b (Edzed.Gen.TrInit.initAsyncRegular (!(a.out b).isUndef) (initdefVal (c.blk b))) false a :=
+  regularBody_tie c rec b a hq hv
+
+end TrTie
 
 /-- `init_async` is started only for a block that is still uninitialised and has a positive `init_timeout` -/
 theorem async_only_if (c : Cfg) (b : Nat) (u : Bool) (t : Int)
